@@ -1,4 +1,5 @@
 //! vfs <PROPERTY> <quick|thorough> [--replay FILE] — engines that need libc interposition.
+mod c02;
 mod crashmc;
 mod fsmodel;
 pub mod shim;
@@ -27,6 +28,7 @@ fn main() {
   let ctx = crashmc::Ctx { tier, replay };
   let code = match prop {
     "C01" => crashmc::run_c01(&ctx),
+    "C02" => c02::run_c02(&ctx),
     _ => {
       eprintln!("unknown property {prop}");
       2
